@@ -201,7 +201,7 @@ def run_case(c):
         if c["nac"] == "gonze" and with_nac:
             # Gonze-Lee's reciprocal sum is not periodic in G: exact only at the first-BZ representative that was used to build it;
             # at the other (tied or outside) representatives it holds to the reciprocal-sum precision only.
-            q, nties = nacgen.bz_reduce(q, pr.cell)
+            q, nties = nacgen.bz_reduce(q, pr.cell, near=True)
             dds = nacgen.dd_scale(pr, ph.nac_params)
             # ph2ph itself evaluates the Gonze-Lee matrices at commensurate points in [0,1) (not BZ-reduced), so even for a unique
             # BZ representative the interpolated constants carry the reciprocal-sum error: loose tolerance in all Gonze-Lee cases.
